@@ -12,6 +12,7 @@ mod run_gf2;
 mod run_lender;
 mod run_ranksel;
 mod run_rcl;
+mod run_serde;
 mod run_sigstore;
 mod run_space;
 
@@ -91,6 +92,8 @@ fn main() {
         ("atomic", Some(l)) => run_atomic::replay(&mut ctx, l),
         ("func", None) => run_func::run(&mut ctx),
         ("func", Some(l)) => run_func::replay(&mut ctx, l),
+        ("serde", None) => run_serde::run(&mut ctx),
+        ("serde", Some(l)) => run_serde::replay(&mut ctx, l),
         ("bfv", None) => run_bfv::run(&mut ctx),
         ("bfv", Some(l)) => run_bfv::replay(&mut ctx, l),
         (r, _) => {
